@@ -450,6 +450,24 @@ def steady_state_relations():
                 ev.append({"e": "rel", "group": "C14:rate=0-when-dG<=0(steady state)", "name": tag, "c": "eq" if r[0] == 0 else "gt", "want": "eq"})
                 for i in range(1, len(r) - 1):
                     ev.append(rel("C14:steady-state-rate-non-decreasing-in-dG", "%s x=%g" % (tag, xs[i + 1]), r[i + 1], r[i], "ge"))
+        # the same function on the real Al-Zr database: compositions below the solvus (no positive driving force anywhere) give a zero rate
+        from . import thermo_drv as TD
+        import warnings
+        with warnings.catch_warnings():
+            warnings.simplefilter("ignore")
+            th = TD.therm("alzr", fresh=True)
+            p = PrecipitateParameters("AL3ZR"); p.gamma = 0.1; p.volume.setVolume(1e-5, "VM", 4)
+            m = MatrixParameters(["ZR"]); m.volume.setVolume(1e-5, "VM", 4); m.initComposition = 4e-3
+            for bname, bf in (("betaBinary1", nr.betaBinary1), ("betaBinary2", nr.betaBinary2)):
+                for xname, xv in (("scalar below the solvus", 1e-6), ("array below the solvus", np.array([1e-6, 2e-6])), ("array across the solvus", np.array([1e-6, 4e-3]))):
+                    tag = "Al-Zr %s %s" % (bname, xname)
+                    try:
+                        d = nr.computeSteadyStateNucleation(th, xv, 723.15, p, m, betaFunc=bf)
+                        r = np.atleast_1d(np.asarray(d.nucleation_rate, dtype=float)); g = np.atleast_1d(np.asarray(d.volumetric_driving_force, dtype=float))
+                        okr = bool(np.all(np.isfinite(r)) and np.all(r >= 0) and np.all(r[g <= 0] == 0) and (np.all(g <= 0) or np.any(r > 0)))
+                        ev.append({"e": "rel", "group": "C14:rate=0-when-dG<=0(steady state, real database)", "name": tag, "c": "eq" if okr else "gt", "want": "eq"})
+                    except Exception as ex:  # noqa
+                        ev.append({"e": "rel", "group": "C14:steady-state-nucleation-evaluates(scalar and array arguments)", "name": "%s: %s" % (tag, type(ex).__name__), "c": "gt", "want": "eq"})
     except Exception as ex:  # noqa
         ev.append({"e": "exception", "msg": "%s: %s" % (type(ex).__name__, str(ex)[:200])})
     return ev
